@@ -54,9 +54,18 @@ package queue
 // deliver: the delivery opened on the target is closed exactly once on every path; a recipient of meta.To without a
 // recorded error was accepted by the target, the body stage reported no error and Commit returned nil.
 //@ pure func dlvOpen(d module.Delivery) bool = d != nil && !old(gOpen)[refOf(d)] && gOpen == store(old(gOpen), refOf(d), true)
+// C10: the target is started with the stored sender and a copy of the stored metadata that differs only in the
+// per-attempt identifier; AddRcpt is called for the pending recipients in order; the body stage receives the very
+// header and body the attempt was given; the stored metadata is not changed by the attempt (frame).
+//@ pure func sameMeta(a *module.MsgMetadata, b *module.MsgMetadata) bool = a.OriginalFrom == b.OriginalFrom && a.SMTPOpts == b.SMTPOpts && a.TLSRequireOverride == b.TLSRequireOverride && a.Quarantine == b.Quarantine && a.DontTraceSender == b.DontTraceSender && a.Conn == b.Conn && (forall k string :: has(a.OriginalRcpts, k) == has(b.OriginalRcpts, k) && (has(b.OriginalRcpts, k) ==> a.OriginalRcpts[k] == b.OriginalRcpts[k]))
 //@ func (*Queue).deliver
 //@   splitreturns
-//@   prop C01
+//@   prop C01 C10
+//@   assert-call (module.DeliveryTarget).Start : $t == q.Target && $mailFrom == meta.From && $msgMeta != nil && $msgMeta != meta.MsgMeta && sameMeta($msgMeta, meta.MsgMeta)
+//@   assert-call (module.DeliveryTarget).Start : $msgMeta.OriginalRcpts == nil || $msgMeta.OriginalRcpts != meta.MsgMeta.OriginalRcpts
+//@   assert-call (module.Delivery).AddRcpt : $d == delivery && $rcptTo == old(meta.To)[rangeindex + 1]
+//@   assert-call (module.Delivery).Body : $d == delivery && $header == header && $body == body
+//@   assert-call (module.PartialDelivery).BodyNonAtomic : refOf($d) == refOf(delivery) && $header == header && $body == body
 //@   requires q != nil && meta != nil && meta.MsgMeta != nil && q.Target != nil
 //@   modifies gOpen, gAcc, gBodyErr, gCommitted, gCommitFailed
 //@   ensures gOpen == old(gOpen)
@@ -95,15 +104,43 @@ package queue
 //@   trusted
 //@   modifies gScheduled
 //@   ensures gScheduled == old(gScheduled) + 1
+// ---- C02: crash safety of the spool (ghost file system of prelude/fs.spec) ----
+//@ pure func metaP(q *Queue, id string) string = pjoin(q.location, id + ".meta")
+//@ pure func hdrP(q *Queue, id string) string = pjoin(q.location, id + ".header")
+//@ pure func bodyP(q *Queue, id string) string = pjoin(q.location, id + ".body")
+// Removal order header, body, metadata: while anything of the message is left its metadata file is left, so the
+// start-up scan (keyed on metadata files) sees and cleans an interrupted removal.
 //@ func (*Queue).removeFromDisk
 //@   prop C02
-//@   modifies gRemoved
+//@   requires q != nil && msgMeta != nil
+//@   modifies gRemoved, fsSt
 //@   trusted-ensures gRemoved == old(gRemoved) + 1
+//@   assert-call os.Remove #0 : $name == hdrP(q, msgMeta.ID)
+//@   assert-call os.Remove #1 : $name == bodyP(q, msgMeta.ID) && fsSt[hdrP(q, msgMeta.ID)] == old(fsSt[hdrP(q, msgMeta.ID)]) || fsSt[hdrP(q, msgMeta.ID)] == 0
+//@   assert-call os.Remove #2 : $name == metaP(q, msgMeta.ID)
+//@   ensures forall p string :: p != hdrP(q, msgMeta.ID) && p != bodyP(q, msgMeta.ID) && p != metaP(q, msgMeta.ID) ==> fsSt[p] == old(fsSt[p])
+// C10: what is serialised is the metadata with the connection state (the only carrier of what the client
+// authenticated with) removed, and otherwise equal to the stored metadata; the stored metadata itself keeps its
+// connection state (frame).
+//@ import json "encoding/json"
 //@ func (*Queue).updateMetadataOnDisk
 //@   prop C02 C10
 //@   requires q != nil && meta != nil && meta.MsgMeta != nil
-//@   modifies gMetaWrites
+//@   modifies gMetaWrites, fsSt, fsData, fsSync
 //@   trusted-ensures gMetaWrites == old(gMetaWrites) + 1
+// C02: the metadata file is never written in place: the new content goes to a temporary file which replaces the
+// metadata file by an atomic rename only after it was written completely and flushed; at every instant the metadata
+// file is absent (first store), the complete old content or the complete new content; on failure it is untouched.
+//@   assert-call os.Create : $name == metaP(q, meta.MsgMeta.ID) + ".new"
+//@   assert-call os.Rename : $oldpath == metaP(q, meta.MsgMeta.ID) + ".new" && $newpath == metaP(q, meta.MsgMeta.ID) && fsSt[$oldpath] == 2 && fsSync[$oldpath]
+//@   assert-call os.Rename : fsSt[metaP(q, meta.MsgMeta.ID)] == old(fsSt[metaP(q, meta.MsgMeta.ID)]) && fsData[metaP(q, meta.MsgMeta.ID)] == old(fsData[metaP(q, meta.MsgMeta.ID)])
+//@   ensures result == nil ==> fsSt[metaP(q, meta.MsgMeta.ID)] == 2 && fsSync[metaP(q, meta.MsgMeta.ID)]
+//@   ensures result != nil ==> fsSt[metaP(q, meta.MsgMeta.ID)] == old(fsSt[metaP(q, meta.MsgMeta.ID)]) && fsData[metaP(q, meta.MsgMeta.ID)] == old(fsData[metaP(q, meta.MsgMeta.ID)])
+//@   ensures forall p string :: p != metaP(q, meta.MsgMeta.ID) && p != metaP(q, meta.MsgMeta.ID) + ".new" ==> fsSt[p] == old(fsSt[p]) && fsData[p] == old(fsData[p]) && fsSync[p] == old(fsSync[p])
+//@   assert-call (*json.Encoder).Encode : isType($v, "QueueMetadata") && as($v, "QueueMetadata").MsgMeta != nil && as($v, "QueueMetadata").MsgMeta.Conn == nil
+//@   assert-call (*json.Encoder).Encode : as($v, "QueueMetadata").From == meta.From && as($v, "QueueMetadata").To == meta.To && as($v, "QueueMetadata").RcptErrs == meta.RcptErrs && as($v, "QueueMetadata").TriesCount == meta.TriesCount
+//@   assert-call (*json.Encoder).Encode : as($v, "QueueMetadata").MsgMeta.ID == meta.MsgMeta.ID && as($v, "QueueMetadata").MsgMeta.OriginalFrom == meta.MsgMeta.OriginalFrom && as($v, "QueueMetadata").MsgMeta.SMTPOpts == meta.MsgMeta.SMTPOpts && as($v, "QueueMetadata").MsgMeta.TLSRequireOverride == meta.MsgMeta.TLSRequireOverride
+//@   assert-call (*json.Encoder).Encode : forall k string :: has(as($v, "QueueMetadata").MsgMeta.OriginalRcpts, k) == has(meta.MsgMeta.OriginalRcpts, k) && (has(meta.MsgMeta.OriginalRcpts, k) ==> as($v, "QueueMetadata").MsgMeta.OriginalRcpts[k] == meta.MsgMeta.OriginalRcpts[k])
 // ---- C18: failure reports ----
 //@ import dsn "github.com/foxcpp/maddy/internal/dsn"
 // origRcpt: the address the sender used for an effective recipient (OriginalRcpts entry when present and non-empty).
@@ -155,7 +192,11 @@ package queue
 //@ pure func isRetry(errs map[string]error, r string, tries int, max int) bool = has(errs, r) && retryable(errs[r], tries, max)
 //@ pure func isFail(errs map[string]error, r string, tries int, max int) bool = has(errs, r) && !retryable(errs[r], tries, max)
 //@ func (*Queue).tryDelivery
-//@   prop C01
+//@   prop C01 C02
+// C02: the failure report for terminally failed recipients is handed over before the spool forgets them (a crash
+// between the two leaves them in the spool, to be attempted and reported again, never unreported).
+//@   assert-call (*Queue).removeFromDisk : len(failedRcpts) > 0 ==> gDSNCalls == old(gDSNCalls) + 1
+//@   assert-call (*Queue).updateMetadataOnDisk : len(failedRcpts) > 0 ==> gDSNCalls == old(gDSNCalls) + 1
 //@   requires q != nil && q.wheel != nil && q.Target != nil && meta != nil && meta.MsgMeta != nil && meta.RcptErrs != nil
 //@   requires forall i int, j int :: 0 <= i && i < j && j < len(meta.To) ==> meta.To[i] != meta.To[j]
 //@   requires forall j int :: 0 <= j && j < len(meta.To) ==> 0 <= tc(meta.TriesCount, meta.To[j]) && tc(meta.TriesCount, meta.To[j]) < 4611686018427387904
@@ -185,3 +226,62 @@ package queue
 //@   loop 0 invariant forall k int, j int :: 0 <= k && k < len(newRcpts) && rangeindex < j && j < len(meta.To) ==> newRcpts[k] != meta.To[j]
 //@   loop 0 invariant forall k int, j int :: 0 <= k && k < len(failedRcpts) && rangeindex < j && j < len(meta.To) ==> failedRcpts[k] != meta.To[j]
 //@   loop 0 invariant forall i int, j int :: 0 <= i && i < j && j < len(meta.To) ==> meta.To[i] != meta.To[j]
+
+// storeNewMessage: header and body are written completely (and, for the durability variant, flushed) before the
+// metadata file that makes the message visible to the start-up scan is created; on success all three files are
+// complete and flushed; on failure no metadata file is left behind (an aborted transaction is never loaded after a
+// restart). C10: the header file holds the serialisation of the header given, the body file the bytes of the body.
+//@ import buffer "github.com/foxcpp/maddy/framework/buffer"
+//@ func (*Queue).storeNewMessage
+//@   prop C02 C10
+//@   splitreturns
+//@   requires q != nil && meta != nil && meta.MsgMeta != nil && body != nil
+//@   modifies gMetaWrites, fsSt, fsData, fsSync
+//@   assert-call (*Queue).updateMetadataOnDisk : $meta == meta && fsSt[hdrP(q, meta.MsgMeta.ID)] == 2 && fsData[hdrP(q, meta.MsgMeta.ID)] == hdrBytes(header) && fsSt[bodyP(q, meta.MsgMeta.ID)] == 2 && fsData[bodyP(q, meta.MsgMeta.ID)] == readerBytes(bodyReader)
+//@   assert-call (*Queue).updateMetadataOnDisk : fsSync[hdrP(q, meta.MsgMeta.ID)] && fsSync[bodyP(q, meta.MsgMeta.ID)]
+//@   ensures result1 == nil ==> fsSt[metaP(q, meta.MsgMeta.ID)] == 2 && fsSt[hdrP(q, meta.MsgMeta.ID)] == 2 && fsSt[bodyP(q, meta.MsgMeta.ID)] == 2
+//@   ensures result1 == nil ==> fsSync[metaP(q, meta.MsgMeta.ID)] && fsSync[hdrP(q, meta.MsgMeta.ID)] && fsSync[bodyP(q, meta.MsgMeta.ID)]
+//@   ensures result1 == nil ==> fsData[hdrP(q, meta.MsgMeta.ID)] == hdrBytes(header)
+//@   ensures result1 == nil ==> isType(result0, "buffer.FileBuffer") && as(result0, "buffer.FileBuffer").Path == bodyP(q, meta.MsgMeta.ID)
+//@   ensures result1 != nil ==> fsSt[metaP(q, meta.MsgMeta.ID)] == old(fsSt[metaP(q, meta.MsgMeta.ID)])
+//@ func (*Queue).tryRemoveDanglingFile
+//@   prop C02
+//@   requires q != nil
+//@   modifies fsSt
+//@   ensures fsSt == old(fsSt) || fsSt == store(old(fsSt), pjoin(q.location, name), 0)
+//@ extern func (buffer.Buffer).Open(b buffer.Buffer) (r io.ReadCloser, err error)
+//@   ensures err == nil ==> r != nil
+//@ extern func (buffer.Buffer).Len(b buffer.Buffer) int
+//@ extern func (io.Closer).Close(c io.Closer) error
+
+// The queue as a delivery target: a failed Body leaves no loadable message; Abort after a successful Body removes the
+// stored message; Commit schedules exactly one first attempt.
+//@ func (*queueDelivery).Body
+//@   prop C02
+//@   requires qd != nil && qd.q != nil && qd.meta != nil && qd.meta.MsgMeta != nil && body != nil
+//@   modifies qd.body, qd.header, gMetaWrites, fsSt, fsData, fsSync
+//@   ensures result != nil ==> fsSt[metaP(qd.q, qd.meta.MsgMeta.ID)] == old(fsSt[metaP(qd.q, qd.meta.MsgMeta.ID)]) && qd.body == old(qd.body)
+//@   ensures result == nil ==> qd.body != nil && fsSt[metaP(qd.q, qd.meta.MsgMeta.ID)] == 2 && fsSync[hdrP(qd.q, qd.meta.MsgMeta.ID)] && fsSync[bodyP(qd.q, qd.meta.MsgMeta.ID)] && fsSync[metaP(qd.q, qd.meta.MsgMeta.ID)]
+//@ func (*queueDelivery).Abort
+//@   prop C02
+//@   requires qd != nil && qd.q != nil && (qd.body != nil ==> qd.meta != nil && qd.meta.MsgMeta != nil)
+//@   modifies gRemoved, fsSt
+//@   ensures old(qd.body) != nil ==> gRemoved == old(gRemoved) + 1
+//@   assert-call (*Queue).removeFromDisk : $msgMeta == qd.meta.MsgMeta
+//@ func (*queueDelivery).Commit
+//@   prop C02
+//@   requires qd != nil && qd.q != nil && qd.q.wheel != nil && qd.meta != nil && qd.meta.MsgMeta != nil
+//@   modifies qd.meta, qd.body, gScheduled
+//@   ensures gScheduled == old(gScheduled) + 1
+// Recovery: the metadata of an id can be read only when its metadata file exists; a retry is scheduled only for ids
+// whose metadata was read and whose header and body files exist; files are removed only for ids that are not scheduled.
+//@ func (*Queue).readMessageMeta
+//@   prop C02
+//@   requires q != nil
+//@   ensures result1 == nil ==> result0 != nil && fsSt[metaP(q, id)] != 0
+//@ func (*Queue).readDiskQueue
+//@   prop C02
+//@   requires q != nil && q.wheel != nil
+//@   modifies *
+//@   assert-call (*TimeWheel).Add : fsSt[metaP(q, id)] != 0 && fsSt[hdrP(q, id)] != 0 && fsSt[bodyP(q, id)] != 0 && isType($value, "queueSlot") && as($value, "queueSlot").ID == id
+//@   loop 0 invariant q != nil && q.wheel == old(q.wheel) && q.location == old(q.location)
